@@ -1,33 +1,58 @@
 (* C09 — CSV text round-trips through the tokenizer for any table and configuration.
-   FULL STATEMENT (not proved as one theorem): for every valid configuration (separators, quotes), every non-empty
-   table of fields over characters <= U+FFFE, every choice of raw / quote-encoded writing (raw only when the field has
-   no separator, quote, CR, LF), separator per gap and line ending in {LF, CR, CRLF, LFCR}:
-     csv_read seps quotes (write ...) = Some table.
-   Proved here (the ingredients, marked _partial) - for EVERY separator and quote configuration:
-   the CSV tokenizer configuration is well-formed, tokenization is lossless and never fails, decoding is a
-   post-processing that never re-segments, and a quote-encoded field placed in a stream is read back as exactly one
-   token that decodes to the field (C14).  The composed statement is decided on generated tables by correspondence
-   of the complete token list with the tokenizer model and by the direct oracle (regrouped tokens = table). *)
+   FULL STATEMENT, proved (C09_csv_roundtrip): for every valid configuration (separators and quote symbols in
+   [0, U+FFFE], none a CR or LF, no separator a quote), every table (one or more rows of one or more fields), every way
+   of writing each field - raw when all its characters are plain (in range, no separator, quote, CR, LF), or
+   quote-encoded with any configured quote - every separator per gap and each of the four line endings LF, CR, CRLF,
+   LFCR:   csv_read seps quotes (write_table eol t) = Some (table_fields t)
+   where csv_read = the CSV tokenizer with string decoding on, regrouped into rows and fields (Csv.v).
+   Also proved, for EVERY configuration: what the character table and the word characters of the CSV tokenizer are for
+   every character (from the C17 theorem), that the configuration is well-formed, lossless, never fails, and that
+   decoding never re-segments; and the read-back of a quoted field (C14). *)
 From Coq Require Import List ZArith Bool Lia.
 Import ListNotations.
-Require Import Base Cursor Tokenizer Instances TokModel TokModelProofs Quote QuoteProofs Csv.
+Require Import Base Cursor Tokenizer Instances TokModel TokModelProofs Quote QuoteProofs Csv CsvConfig CsvRoundtrip.
 Open Scope Z_scope.
 
-Theorem C09_csv_configuration_well_formed_partial : forall seps quotes,
+Theorem C09_csv_roundtrip : forall seps quotes : list Z,
+  valid_chars seps -> valid_chars quotes -> Forall (fun s => mem s quotes = false) seps ->
+  forall (eol : Base.str) (t : table), eol_ok eol -> table_ok seps quotes t -> wf_str (write_table eol t) ->
+  csv_read seps quotes (write_table eol t) = Some (table_fields t).
+Proof. exact csv_roundtrip. Qed.
+
+(* the character table and the word characters of the CSV tokenizer, for every character and configuration *)
+Theorem C09_csv_character_table : forall seps quotes, valid_chars seps -> valid_chars quotes ->
+  (forall c, Instances.table (csv_cfg seps quotes) c = csv_kind seps quotes c) /\
+  (forall c, Instances.wordchar (csv_cfg seps quotes) c = csv_plain seps quotes c).
+Proof. intros seps quotes Hs Hq. exact (conj (csv_table_is seps quotes Hs Hq) (csv_wordchar_is seps quotes Hs Hq)). Qed.
+
+(* non-vacuity: a table with quoted separators, line breaks, doubled quotes, empty and non-ASCII fields meets the premises *)
+Example C09_premises_satisfiable :
+  let t : table := (((Raw, [97]), [(44, (Enc 34, [98; 44; 10; 34; 99])); (59, (Raw, []))]),
+                    [((Raw, []), [(44, (Enc 39, [34]))]); ((Raw, [233]), [])]) in
+  valid_chars [44; 59] /\ valid_chars [34; 39] /\ Forall (fun s => mem s [34; 39] = false) [44; 59] /\ eol_ok [13; 10] /\
+  table_ok [44; 59] [34; 39] t /\ wf_str (write_table [13; 10] t) /\
+  table_fields t = [[[97]; [98; 44; 10; 34; 99]; []]; [[]; [34]]; [[233]]].
+Proof.
+  cbv zeta. repeat split; try (repeat constructor; cbn; try lia; try discriminate; fail); try (right; right; left; reflexivity).
+  all: try (unfold wf_str; cbn; repeat (constructor; [lia|]); constructor).
+  all: repeat constructor; try reflexivity.
+Qed.
+
+Theorem C09_csv_configuration_well_formed : forall seps quotes,
   Instances.cfg_ok (csv_cfg seps quotes) /\ Instances.types_ok (csv_cfg seps quotes).
 Proof. exact csv_cfg_ok. Qed.
 
-Theorem C09_csv_tokenization_lossless_partial : forall seps quotes (s : Base.str), wf_str s ->
+Theorem C09_csv_tokenization_lossless : forall seps quotes (s : Base.str), wf_str s ->
   exists body e, tokenize_with (TCsv seps quotes) no_options s = Tokenizer.Ok (body ++ [e]) /\
                  concat (map value (body ++ [e])) = s /\ ty e = Eof /\ value e = [] /\ Forall (fun t => value t <> []) body.
 Proof. intros seps quotes. exact (tokenize_lossless (TCsv seps quotes)). Qed.
 
-Theorem C09_decoding_never_resegments_partial : forall seps quotes o (s : Base.str), wf_str s ->
+Theorem C09_decoding_never_resegments : forall seps quotes o (s : Base.str), wf_str s ->
   exists rs cend, raw_with (TCsv seps quotes) s = Some (rs, cend) /\
                   tokenize_with (TCsv seps quotes) o s = Tokenizer.Ok (post decode_doubled o Unknown rs (plcf cend)).
 Proof. intros seps quotes. exact (tokenize_options_are_post (TCsv seps quotes)). Qed.
 
-Theorem C09_quoted_field_reads_back_partial : forall (q : Z) (field rest : Quote.str), hd 0 rest <> q \/ rest = [] ->
+Theorem C09_quoted_field_reads_back : forall (q : Z) (field rest : Quote.str), hd 0 rest <> q \/ rest = [] ->
   quote_next (encode q field ++ rest) = (encode q field, rest) /\ decode q (fst (quote_next (encode q field ++ rest))) = Quote.Ok field.
 Proof. intros q f rest H. split; [exact (read_back q f rest H) | exact (read_back_decodes q f rest H)]. Qed.
 
@@ -38,7 +63,9 @@ Example C09_nonvacuous :
   = Some [[[97]; [98; 44; 10; 34; 99]; []]; [[]; [34]]; [[233]]; [[120]]; [[121]]].
 Proof. vm_compute. reflexivity. Qed.
 
-Print Assumptions C09_csv_configuration_well_formed_partial.
-Print Assumptions C09_csv_tokenization_lossless_partial.
-Print Assumptions C09_decoding_never_resegments_partial.
-Print Assumptions C09_quoted_field_reads_back_partial.
+Print Assumptions C09_csv_roundtrip.
+Print Assumptions C09_csv_character_table.
+Print Assumptions C09_csv_configuration_well_formed.
+Print Assumptions C09_csv_tokenization_lossless.
+Print Assumptions C09_decoding_never_resegments.
+Print Assumptions C09_quoted_field_reads_back.
